@@ -441,6 +441,85 @@ fn multiline_faults_sweep() -> Sweep {
     )
 }
 
+// Compound offenders: a well-typed compound expression of one class (every arithmetic operator, a
+// negation, a call, a conditional, a group of class int; every comparison and a conditional of class
+// bool; function types and a conditional of class type; a function) written where another class is
+// required (a condition, an operand of each kind of operator, an argument, an annotated definition).
+// The offending subexpression is the whole compound — every node of the elaborated term has to carry
+// the range of the node it was elaborated from, not the range of one of its parts. Some diagnostic
+// must mark exactly the compound (or the parentheses that enclose nothing else).
+fn compound_offender_sweep() -> Sweep {
+    const INTS: [&str; 15] = [
+        "f 1 2", "g (1)", "1 + 2", "1 - 2", "1 * 2", "1 / 2", "-g 1", "-(1)", "if true then 1 else 2", "(q : int = 1; q)", "1 + 2 * 3", "1 / 2 / 3", "g 1 / g 2", "1 * 2 / 3",
+        "1 /\n  2",
+    ];
+    const BOOLS: [&str; 8] = ["1 < 2", "1 <= 2", "1 == 2", "1 > 2", "1 >= 2", "if true then true else false", "h 1", "1 + 1 >=\n  2"];
+    const TYPES: [&str; 3] = ["int -> int", "(z : int) -> int", "if true then int else bool"];
+    const FUNS: [&str; 2] = ["(z : int) => z", "{z : type} => z"];
+    // contexts that require a bool / an int there; the operand is always written in parentheses
+    const WANT_BOOL: [&str; 4] = ["if (@) then 1 else 2", "bb : bool = (@); 1", "k (@)", "(y : bool -> int) => y (@)"];
+    const WANT_INT: [&str; 9] = ["1 + (@)", "(@) + 1", "(-(@))", "nn : int = (@); 1", "g (@)", "(@) * 2", "2 / (@)", "(@) < 1", "1 - (@) - 1"];
+    const PREFIXES: [&str; 3] = [
+        "f : (int -> int -> int) = (a : int) => (b : int) => a + b; g : (int -> int) = (a : int) => a; h : (int -> bool) = (a : int) => true; k : (bool -> int) = (b : bool) => 1; ",
+        "f : (int -> int -> int) = (a : int) => (b : int) => a + b\ng : (int -> int) = (a : int) => a\nh : (int -> bool) = (a : int) => true\nk : (bool -> int) = (b : bool) => 1\n\n",
+        "f : (int -> int -> int) = (a : int) => (b : int) => a + b; g : (int -> int) = (a : int) => a; h : (int -> bool) = (a : int) => true; k : (bool -> int) = (b : bool) => 1; é = 1; ",
+    ];
+    let mut cases: Vec<(&'static str, &'static str)> = vec![];
+    for o in INTS {
+        for c in WANT_BOOL {
+            cases.push((c, o));
+        }
+    }
+    for o in BOOLS.iter().chain(TYPES.iter()).chain(FUNS.iter()) {
+        for c in WANT_INT {
+            cases.push((c, o));
+        }
+    }
+    for o in TYPES.iter().chain(FUNS.iter()) {
+        for c in WANT_BOOL {
+            cases.push((c, o));
+        }
+    }
+    let cases = Rc::new(cases);
+    let c2 = cases.clone();
+    Sweep::new(
+        "compound offenders (every kind of compound expression where another class is required)",
+        (cases.len() * PREFIXES.len()) as u64,
+        move |idx| {
+            let (context, operand) = cases[idx as usize / PREFIXES.len()];
+            let prefix = PREFIXES[idx as usize % PREFIXES.len()];
+            let text = format!("{prefix}{}", context.replace('@', operand));
+            let start = prefix.len() + context.find('@').unwrap();
+            let end = start + operand.len();
+            count!("evaluations");
+            count!("compound_offenders");
+            crate::props::sem::front_end(&text, |f| match f {
+                crate::props::sem::FrontEnd::Rejected { stage: "type_check", messages, .. } => {
+                    let mut last = String::new();
+                    for m in &messages {
+                        match points_at(&text, m, start, end) {
+                            Ok(()) => {
+                                count!("compound_offender_ok");
+                                count!("nontrivial");
+                                return;
+                            }
+                            Err(e) => last = e,
+                        }
+                    }
+                    violation("type-fault-marks-other-text", &text[prefix.len()..], &format!("a diagnostic marking exactly the offending expression {operand:?}"), &format!("{} diagnostics, none points there; last: {last}", messages.len()));
+                }
+                crate::props::sem::FrontEnd::Panic { message, .. } => violation("panic", &text, "diagnostics", &message),
+                crate::props::sem::FrontEnd::Rejected { stage, messages, .. } => crate::infra::machinery(&format!("compound-offender program is rejected by {stage}: {text:?}: {messages:?}")),
+                crate::props::sem::FrontEnd::Accepted(_) => crate::infra::machinery(&format!("compound-offender program is accepted: {text:?}")),
+            });
+        },
+        move |idx| {
+            let (context, operand) = c2[idx as usize / 3];
+            context.replace('@', operand)
+        },
+    )
+}
+
 // Definition-order diagnostics ("The definition of `X` references `Y` (directly or indirectly), which will
 // not be available in time"): groups of three definitions, each a literal, a function mentioning a subset
 // of the group or a computed expression mentioning a subset (the definition-order family of C13), in
@@ -754,6 +833,7 @@ impl Prop for C15 {
             type_faults_sweep(tier),
             multiline_faults_sweep(),
             order_faults_sweep(tier.pick(1, 1)),
+            compound_offender_sweep(),
         ];
         for (name, sg) in c07::slices(&g) {
             if name == "binders" || name == "let-groups" {
